@@ -61,7 +61,22 @@ func (ex *Exec) lockEntry(spec *FuncSpec, ev *Eval) {
 			held = sSto(held, ev.mutexAddr(lc.expr), fmt.Sprint(lc.mode))
 		}
 	}
-	ex.vc.assume(sEq(ex.get(ex.curState, "HELD", "(Array Int Int)"), held))
+	ex.heldEntry = held
+}
+
+// useHeld: the entry fact about HELD is only emitted in functions that touch a lock at all (a constant-array
+// equality in every query slows the solvers down for nothing).
+func (ex *Exec) useHeld() {
+	top := ex
+	for top.parent != nil {
+		top = top.parent
+	}
+	if top.heldEntry != "" && !top.heldEmitted {
+		top.heldEmitted = true
+		top.vc.declareOnce("comp:HELD", "(declare-const c0_HELD (Array Int Int))")
+		top.vc.compSort["HELD"] = "(Array Int Int)"
+		top.vc.decls = append(top.vc.decls, "(assert (= c0_HELD "+top.heldEntry+"))")
+	}
 }
 
 func (ex *Exec) lockExit(spec *FuncSpec, st *State, exitReach string) {
@@ -74,6 +89,10 @@ func (ex *Exec) lockExit(spec *FuncSpec, st *State, exitReach string) {
 
 // lockCallProtocol: the caller must hold the callee's mutexes exactly as the callee's lock clauses say.
 func (ex *Exec) lockCallProtocol(spec *FuncSpec, ev *Eval, pos token.Pos, name string) {
+	if len(spec.Lock) == 0 {
+		return
+	}
+	ex.useHeld()
 	held := ex.get(ex.curState, "HELD", "(Array Int Int)")
 	for _, lc := range parseLockClauses(spec, ex.vc) {
 		cur := sSel(held, ev.mutexAddr(lc.expr))
